@@ -244,3 +244,13 @@ def c27(ctx):
     events = ctx.drive("base", cases, env={"SEV_CASE_TIMEOUT": "5"}, max_crashes=400)
     bad = ctx.validate("Trace_C27", events, floor=0.5)
     ctx.judge(bad, cases)
+
+
+@plan("C28")
+def c28(ctx):
+    ctx.rule = ("TLC enumerates formulas with and/or/not/xor/nand/nor/xnor over 12 atoms (relationals between x, y and "
+                "numbers, Contains in finite sets and an interval, True, False) and their negations: all binary "
+                "combinations of literals, seeded ternary and nested combinations, and Piecewise expressions with such "
+                "conditions; the simplified formula the library returns must have the same truth value as the recipe "
+                "at all 25 assignments of x, y over a grid that realises every cell of the atoms")
+    simple(ctx, "MC_C28", "Trace_Val", floor=0.5)
